@@ -288,6 +288,7 @@ func runC07(c *Ctx) {
 		c.R.Check(!reaches, r2, role, "role that others wait on cannot reach the client-dependent RESULT retry wait (dealer.yield)", c.P.FuncPos(yield),
 			"role "+role+" is waited on by other roles and can execute dealer.yield's retry loop, whose duration (up to sendResultDeadline) depends on a client draining its queue")
 	}
+	ruleMetaShutdownJoin(c, r2)
 	c.R.Floor(r2, 11)
 
 	const r5 = "C07.R5 a cancel is answered at once unless the callee was actually interrupted in kill mode"
